@@ -462,7 +462,8 @@ class tenmat:
         -------
         :class:`numpy.ndarray`, float, int
         """
-        return self.data[item]
+        # Copy: basic slicing would otherwise hand out a view of the data
+        return np.copy(self.data[item])
 
     def __mul__(self, other):
         """
